@@ -16,6 +16,10 @@ from props import REGEN_EXTRA
 F.REGEN.update(REGEN_EXTRA)
 ctx = F.Ctx('setup', 'quick', 1)
 ok = True
+from props import REGEN_EXTRA          # translators registered by the per-property configuration files
+F.REGEN.update(REGEN_EXTRA)
+import gen_registry
+gen_registry.main()                    # registry files of the lake project (git-ignored)
 for name, f in F.REGEN.items():
     ok = f(ctx) and ok
 sys.exit(0 if ok else 1)
